@@ -28,6 +28,8 @@ fn main() {
         out_dir: PathBuf::from(cargo_env("OUT_DIR")),
         rustc: cargo_env("RUSTC"),
     };
+    // verification hooks are guarded by `--cfg substrate_fixed_verif`; declare the name to rustc
+    println!("cargo:rustc-check-cfg=cfg(substrate_fixed_verif)");
 }
 
 #[derive(PartialEq)]
